@@ -333,7 +333,7 @@ func (s *scenC07) forwardFilterC07() {
 // availability, per-attempt fault kinds and per-attempt forward-filter verdicts.
 func VerifC07_connnum() {
 	nb := vrt.Param("NB", 2)
-	s := buildC07(vrt.Range("nb0", 1, nb), vrt.Range("nb1", 1, nb), vrt.Choose("blackhole", 1+vrt.Param("BH", 1)) == 1,
+	s := buildC07(vrt.Range("nb0", 1, nb), vrt.Range("nb1", 1, vrt.Param("NB1", nb)), vrt.Choose("blackhole", 1+vrt.Param("BH", 1)) == 1,
 		vrt.Choose("wlc", vrt.Param("MODES", 1)) == 1, false)
 	s.kinds, s.kindsRest = vrt.Param("K", nFaultC07), vrt.Param("K", nFaultC07)
 	s.forwardFilterC07()
